@@ -2103,6 +2103,12 @@ func (u *Unit) unfiredClauses() {
 		if c.Kind != "assert" || u.clauseFired[c] {
 			continue
 		}
+		if msg := u.chanAnchorGone(c.Arg); msg != "" {
+			// the channel expression of the anchor names a variable that the body no longer declares with such a
+			// field (renamed while another variable of that name exists): the contract is stale, not violated
+			u.fail("%s", msg)
+			continue
+		}
 		u.oblige(newState(), fmt.Sprintf("assert#%d@%s?absent", k+1, c.Arg), "assert", c.Props, TTrue, 0, c.Text+" (no such point in the body)")
 	}
 	for i, c := range u.spec.OnCall {
@@ -2129,4 +2135,49 @@ func (u *Unit) unfiredClauses() {
 func specIsEmpty(sp *UnitSpec) bool {
 	return sp == nil || (len(sp.Requires) == 0 && len(sp.Ensures) == 0 && len(sp.OnCall) == 0 && len(sp.Ghost) == 0 &&
 		len(sp.Asserts) == 0 && len(sp.Loops) == 0 && len(sp.Labels) == 0 && len(sp.Lits) == 0 && len(sp.Chans) == 0)
+}
+
+
+// chanAnchorGone: for an anchor "send:x.f" / "recv:x.f" / "close:x.f" that matched no statement, is there still a
+// variable x declared in the unit's body (or among its parameters) whose type has a field or method f? If not, the
+// anchor can not refer to anything in this body any more.
+func (u *Unit) chanAnchorGone(anchor string) string {
+	var txt string
+	for _, pre := range []string{"send:", "recv:", "close:"} {
+		if strings.HasPrefix(anchor, pre) {
+			txt = strings.TrimSuffix(strings.TrimPrefix(anchor, pre), "()")
+		}
+	}
+	if txt == "" || len(u.frames) == 0 {
+		return ""
+	}
+	parts := strings.Split(txt, ".")
+	if len(parts) < 2 || !token.IsIdentifier(parts[0]) || !token.IsIdentifier(parts[1]) {
+		return ""
+	}
+	fr := u.frames[0]
+	if fr.info == nil || fr.body == nil {
+		return ""
+	}
+	found := false
+	ast.Inspect(fr.body, func(n ast.Node) bool {
+		id, ok := n.(*ast.Ident)
+		if !ok || id.Name != parts[0] {
+			return true
+		}
+		obj := fr.info.Defs[id]
+		if obj == nil {
+			obj = fr.info.Uses[id]
+		}
+		if v, ok := obj.(*types.Var); ok {
+			if o, _, _ := types.LookupFieldOrMethod(v.Type(), true, fr.pkg, parts[1]); o != nil {
+				found = true
+			}
+		}
+		return !found
+	})
+	if found {
+		return ""
+	}
+	return fmt.Sprintf("unknown field: no variable %s with a field or method %s in the body any more (anchor %s)", parts[0], parts[1], anchor)
 }
